@@ -20,10 +20,14 @@ def load_prop(pid):
 
 
 def load_known(pid):
-  if not os.path.exists(KNOWN_FILE):
-    return []
-  with open(KNOWN_FILE) as f:
-    data = json.load(f)
+  data = []
+  if os.path.exists(KNOWN_FILE):
+    with open(KNOWN_FILE) as f:
+      data = json.load(f)
+  extra = os.path.join(VERIF, 'known_findings.d', '%s.json' % pid)   # staging area, merged before commit
+  if os.path.exists(extra):
+    with open(extra) as f:
+      data = data + json.load(f)
   return [e for e in data if e.get('property') == pid]
 
 
